@@ -389,4 +389,82 @@ func TestC18Targeted(t *testing.T) {
 		loop(func(c *column.Collection, i int) {
 			c.Query(func(txn *column.Txn) error { txn.With("big").Count(); return nil })
 		}))
+	// the two workloads below do not belong to a listed finding: they aim at narrowed locks around
+	// block growth and around index builds (reads of an index through the Go read paths - the
+	// bitmap kernels behind With/Without/Union are assembly and invisible to the race detector)
+	run("block growth vs commits on existing blocks",
+		loop(func(c *column.Collection, i int) {
+			c.Query(func(txn *column.Txn) error {
+				for k := 0; k < 17000; k++ {
+					txn.Insert(func(r column.Row) error { r.SetInt("n", k); return nil })
+				}
+				return nil
+			})
+			if c.Count() > 400000 {
+				c.Query(func(txn *column.Txn) error {
+					txn.WithInt("n", func(v int64) bool { return v > 100 }).DeleteAll()
+					return nil
+				})
+			}
+		}),
+		loop(func(c *column.Collection, i int) {
+			c.QueryAt(uint32(i%100), func(r column.Row) error { r.MergeInt("n", 1); return nil })
+		}),
+		loop(func(c *column.Collection, i int) {
+			c.QueryAt(16384+uint32(i%100), func(r column.Row) error { r.SetInt("n", i); return nil })
+		}),
+		loop(func(c *column.Collection, i int) {
+			var buf bytes.Buffer
+			c.Snapshot(&buf)
+			time.Sleep(40 * time.Millisecond)
+		}))
+	// Readers use the index only while it is registered (a typed accessor on a missing column is a
+	// documented panic): they start at the first call of the index rule - i.e. while the build is
+	// still running - and the drop waits for them behind a harness gate.
+	var active int32
+	var gate sync.RWMutex
+	reading := func(body func(c *column.Collection, i int)) func(c *column.Collection, stop chan struct{}) {
+		return loop(func(c *column.Collection, i int) {
+			gate.RLock()
+			if atomic.LoadInt32(&active) == 1 {
+				body(c, i)
+			}
+			gate.RUnlock()
+		})
+	}
+	run("index build vs readers of that index (Go read paths)",
+		loop(func(c *column.Collection, i int) {
+			var first int32
+			c.CreateIndex("ixr", "n", func(r column.Reader) bool {
+				if atomic.CompareAndSwapInt32(&first, 0, 1) {
+					atomic.StoreInt32(&active, 1)
+				}
+				return r.Int()%2 == 0
+			})
+			time.Sleep(time.Millisecond)
+			gate.Lock()
+			atomic.StoreInt32(&active, 0)
+			c.DropIndex("ixr")
+			gate.Unlock()
+		}),
+		reading(func(c *column.Collection, i int) {
+			c.QueryAt(uint32(i*37%16500), func(r column.Row) error { r.Bool("ixr"); r.Bool("big"); return nil })
+		}),
+		reading(func(c *column.Collection, i int) {
+			c.Query(func(txn *column.Txn) error {
+				ix := txn.Bool("ixr")
+				n := 0
+				return txn.With("b").Range(func(idx uint32) {
+					if n++; n < 2000 {
+						ix.Get()
+					}
+				})
+			})
+		}),
+		reading(func(c *column.Collection, i int) {
+			c.Query(func(txn *column.Txn) error {
+				txn.WithValue("ixr", func(v any) bool { return v != nil }).Count()
+				return nil
+			})
+		}))
 }
